@@ -122,7 +122,57 @@ pub fn run(case: &J) -> R<J> {
             Err(x) => e(x),
         },
     );
-    let mut out = json!({"ev": "Formats", "template": is_template, "policy": p, "p0": p0, "hops": hops});
+
+    // alternative JSON spellings (has-chains with an attr array, literal sets / records / extension values as one
+    // Value) and the hops that start from a JSON-built policy: PST, PST then JSON, JSON again, text
+    let mut alts = Map::new();
+    for (name, est) in [("est", &case["est"]), ("alt", &case["alt"])] {
+        if est.is_null() {
+            continue;
+        }
+        let proj_from = |j: J| -> Result<J, String> {
+            if is_template {
+                Template::from_json(Some(id.clone()), j).map(|t| proj_template(&t)).map_err(|x| x.to_string())
+            } else {
+                Policy::from_json(Some(id.clone()), j).map(|t| proj_policy(&t)).map_err(|x| x.to_string())
+            }
+        };
+        alts.insert(format!("{name}_from_json"), proj_from(est.clone()).unwrap_or_else(e));
+        if is_template {
+            if let Ok(t) = Template::from_json(Some(id.clone()), est.clone()) {
+                alts.insert(format!("{name}_pst"), t.to_pst().map_err(|x| x.to_string()).and_then(|x| Template::from_pst(x).map_err(|x| x.to_string())).map(|t| proj_template(&t)).unwrap_or_else(e));
+                alts.insert(
+                    format!("{name}_pst_json"),
+                    t.to_pst().map_err(|x| x.to_string()).and_then(|x| Template::from_pst(x).map_err(|x| x.to_string())).and_then(|t| t.to_json().map_err(|x| x.to_string())).and_then(&proj_from).unwrap_or_else(e),
+                );
+                alts.insert(format!("{name}_json"), t.to_json().map_err(|x| x.to_string()).and_then(&proj_from).unwrap_or_else(e));
+                alts.insert(format!("{name}_text"), Template::parse(Some(id.clone()), t.to_string()).map(|t| proj_template(&t)).unwrap_or_else(e));
+                alts.insert(
+                    format!("{name}_proto"),
+                    t.encode().map_err(|x| x.to_string()).and_then(|b| Template::decode(&b[..]).map_err(|x| x.to_string())).map(|t| proj_template(&t)).unwrap_or_else(e),
+                );
+            }
+        } else if let Ok(t) = Policy::from_json(Some(id.clone()), est.clone()) {
+            alts.insert(format!("{name}_pst"), t.to_pst().map_err(|x| x.to_string()).and_then(|x| Policy::from_pst(x).map_err(|x| x.to_string())).map(|t| proj_policy(&t)).unwrap_or_else(e));
+            alts.insert(
+                format!("{name}_pst_json"),
+                t.to_pst().map_err(|x| x.to_string()).and_then(|x| Policy::from_pst(x).map_err(|x| x.to_string())).and_then(|t| t.to_json().map_err(|x| x.to_string())).and_then(&proj_from).unwrap_or_else(e),
+            );
+            alts.insert(format!("{name}_json"), t.to_json().map_err(|x| x.to_string()).and_then(&proj_from).unwrap_or_else(e));
+            alts.insert(format!("{name}_text"), Policy::parse(Some(id.clone()), t.to_string()).map(|t| proj_policy(&t)).unwrap_or_else(e));
+            let mut ps = PolicySet::new();
+            if ps.add(t.clone()).is_ok() {
+                let view = |s: &PolicySet| -> J { s.policy(&id).map(proj_policy).unwrap_or(json!({"absent": true})) };
+                alts.insert(format!("{name}_set_pst"), ps.to_pst().map_err(|x| x.to_string()).and_then(|x| PolicySet::from_pst(x).map_err(|x| x.to_string())).map(|s| view(&s)).unwrap_or_else(e));
+                alts.insert(format!("{name}_set_proto"), ps.encode().map_err(|x| x.to_string()).and_then(|b| PolicySet::decode(&b[..]).map_err(|x| x.to_string())).map(|s| view(&s)).unwrap_or_else(e));
+                alts.insert(
+                    format!("{name}_set_json"),
+                    ps.clone().to_json().map_err(|x| x.to_string()).and_then(|j| PolicySet::from_json_value(j).map_err(|x| x.to_string())).map(|s| view(&s)).unwrap_or_else(e),
+                );
+            }
+        }
+    }
+    let mut out = json!({"ev": "Formats", "template": is_template, "policy": p, "p0": p0, "hops": hops, "alts": alts});
     if let Some(idv) = case.get("id") {
         out["id"] = idv.clone();
     }
